@@ -110,14 +110,14 @@ def run(rep, tier, seed, budget):
     rep.add_part("i: the three presets: alphabet equals the described set and every symbol decodes", res, {"presets": 3})
 
     # (ii) strings over the alphabet of the table in force -----------------------------------
-    def level(N):
+    def level(N, ALPHA):
         def path(eng, col):
             table = ctx.sym_table(R_KEYS)
             ctx.reset(table)
-            toks = make_tokens("t", N, R_ALPHA)
+            toks = make_tokens("t", N, ALPHA)
             # assumption: every token belongs to the robust alphabet of this table
             for t in toks:
-                for i, s in enumerate(R_ALPHA):
+                for i, s in enumerate(ALPHA):
                     if s in FIXED:
                         continue  # index symbols ([C], [=C], [#C], [N], [=N], [O] ...) are in every robust alphabet
                     if s[-2] in "CNO" and "Branch" not in s and "Ring" not in s:
@@ -140,14 +140,16 @@ def run(rep, tier, seed, budget):
                                "table": table_model(m, table)})
         return path
 
+    R_SMALL = ["[C]", "[=C]", "[#C]", "[N]", "[#N]", "[=O]", "[Branch1]", "[=Branch1]", "[Ring1]", "[=Ring1]"]
     for n in ((1, 2, 3, 4) if quick else (1, 2, 3, 4, 5, 6)):
+        ALPHA_N = R_SMALL if (quick and n == 4) else R_ALPHA
         left = t_end - time.time()
         name = "ii: N=%d symbols, each in the robust alphabet of a free table: decodes without error and obeys the table" % n
         if left < 5:
             rep.parts.append({"name": name, "complete": False, "paths": 0, "bounds": {"N": n}, "claim": "not started (time budget)"})
             continue
-        res = driver.explore_parallel(level(n), left * 0.8)
-        rep.add_part(name, res, {"alphabet": R_ALPHA, "N_symbols": n, "table": "keys %s free in 0..9" % R_KEYS})
+        res = driver.explore_parallel(level(n, ALPHA_N), left * 0.8)
+        rep.add_part(name, res, {"alphabet": ALPHA_N, "N_symbols": n, "table": "keys %s free in 0..9" % R_KEYS})
     rep.assumptions += ["part i goes through the real set_semantic_constraints (validation included); the key is concretised (one path per key spelling), values stay symbolic",
                         "part ii installs the table directly and assumes every token is in the robust alphabet of the table: index symbols unconditionally, other atom symbols iff order <= capacity",
                         "'reflects the table in force at the time of the call' is decided by C11's histories"]
